@@ -50,7 +50,7 @@ def simulate(seed=0, scan=(4, 4), roi=(8, 8), step=2.0, sampling=0.5, energy=80e
 
 
 def build_toy(seed=0, scan=(4, 4), roi=(8, 8), step=2.0, sampling=0.5, energy=80e3, semiangle=20.0,
-              defocus=50.0, num_probes=1, obj_type="complex", num_slices=1, rng_seed=42, val_ratio=0.0):
+              defocus=50.0, num_probes=1, obj_type="complex", num_slices=1, rng_seed=42, val_ratio=0.0, val_mode=None):
     import torch  # noqa
     from quantem.core.datastructures import Dataset4dstem
     from quantem.diffractive_imaging.dataset_models import PtychographyDatasetRaster
@@ -76,8 +76,9 @@ def build_toy(seed=0, scan=(4, 4), roi=(8, 8), step=2.0, sampling=0.5, energy=80
     det = DetectorPixelated()
     pt = Ptychography.from_models(dset=pd, obj_model=om, probe_model=pm, detector_model=det, rng=rng_seed,
                                   verbose=0)
-    pt.val_ratio = val_ratio
-    pt.preprocess(obj_padding_px=(0, 0))
+    # preprocess() takes the validation split settings itself (and resets them to its defaults otherwise)
+    pt.preprocess(obj_padding_px=(0, 0), val_ratio=val_ratio, **({"val_mode": val_mode} if val_mode is not None else {}))
+    assert abs(pt.val_ratio - val_ratio) < 1e-12 and (val_mode is None or pt.val_mode == val_mode)
     return pt
 
 
@@ -152,42 +153,44 @@ def c09_recon_checks(ctx):
                                 "mean of per-batch %s gradients differs from the full-batch gradient by rel %.3g "
                                 "(batch size %d | %d patterns, %s)" % (nm, _rel(g, gf), b, n, lt),
                                 {"kind": "toy", "scan": scan, "batch": b, "loss_type": lt, "seed": seed}))
-    # seeded determinism and reset, with shuffled mini-batches and a validation split
+    # seeded determinism and reset, with shuffled mini-batches, for every kind of validation split
+    # (none / grid / random: the random split draws from the rng, so anything that survives a reset shows there)
     b = r.choice([d for d in divisors if 1 < d < n] or [1])
-    val_ratio = r.choice([0.0, 0.25])
-    kw = dict(optimizer_params=OPT, batch_size=b + 1, constraints=NO_ORTHO)   # non-dividing batch size
+    vconfigs = [(0.25, "random"), r.choice([(0.0, None), (0.25, "grid")])] if ctx.quick else [(0.0, None), (0.25, "grid"), (0.25, "random"), (0.4, "random")]
+    for val_ratio, val_mode in vconfigs:
+        kw = dict(optimizer_params=OPT, batch_size=b + 1, constraints=NO_ORTHO)   # non-dividing batch size
 
-    def fresh():
-        p2 = build_toy(seed=seed % 97, scan=scan, rng_seed=seed, val_ratio=val_ratio)
-        return p2
+        def fresh():
+            p2 = build_toy(seed=seed % 97, scan=scan, rng_seed=seed, val_ratio=val_ratio, val_mode=val_mode)
+            return p2
 
-    A = fresh()
-    A.reconstruct(num_iters=3, **kw)
-    la = [float(x) for x in A._iter_losses]
-    B = fresh()
-    B.reconstruct(num_iters=3, **kw)
-    lb = [float(x) for x in B._iter_losses]
-    ctx.count(("toy-determinism", scan, b, val_ratio), nontrivial=True)
-    if _rel(la, lb) > 1e-6:
-        out.append(("toy-seed-determinism", "two runs from the same seed give different loss histories %s vs %s" % (la, lb),
-                    {"kind": "toy", "scan": scan, "batch": b + 1, "seed": seed, "val_ratio": val_ratio}))
-    # run some iterations, then reset and run again
-    B.reconstruct(num_iters=2, **{**kw, "optimizer_params": None})
-    B.reconstruct(num_iters=3, reset=True, **kw)
-    lc = [float(x) for x in B._iter_losses]
-    ctx.count(("toy-reset", scan, b, val_ratio), nontrivial=True)
-    if len(lc) != 3 or _rel(la, lc) > 1e-6:
-        out.append(("toy-reset-determinism", "run after reset gives %s, fresh run from the same seed gave %s" % (lc, la),
-                    {"kind": "toy", "scan": scan, "batch": b + 1, "seed": seed, "val_ratio": val_ratio}))
-    # reset restores the initial state the model's `reset` assumes: rng re-seeded, histories empty
-    B.reset_recon()
-    st = B.rng.bit_generator.state
-    ref = np.random.default_rng(seed).bit_generator.state
-    fields_ok = (st == ref and len(B._iter_losses) == 0 and len(B._iter_val_losses) == 0 and len(B._iter_lrs) == 0)
-    ctx.count(("toy-reset-fields", scan), nontrivial=True)
-    ctx.cov["traces_validated_against_impl"] += 1
-    if not fields_ok:
-        out.append(("toy-reset-fields", "reset_recon does not restore rng state / empty histories",
-                    {"kind": "toy", "scan": scan, "seed": seed}))
+        A = fresh()
+        A.reconstruct(num_iters=3, **kw)
+        la = [float(x) for x in A._iter_losses]
+        B = fresh()
+        B.reconstruct(num_iters=3, **kw)
+        lb = [float(x) for x in B._iter_losses]
+        ctx.count(("toy-determinism", scan, b, val_ratio, val_mode), nontrivial=True)
+        if _rel(la, lb) > 1e-6:
+            out.append(("toy-seed-determinism", "two runs from the same seed give different loss histories %s vs %s" % (la, lb),
+                        {"kind": "toy", "scan": scan, "batch": b + 1, "seed": seed, "val_ratio": val_ratio, "val_mode": val_mode}))
+        # run some iterations, then reset and run again
+        B.reconstruct(num_iters=2, **{**kw, "optimizer_params": None})
+        B.reconstruct(num_iters=3, reset=True, **kw)
+        lc = [float(x) for x in B._iter_losses]
+        ctx.count(("toy-reset", scan, b, val_ratio, val_mode), nontrivial=True)
+        if len(lc) != 3 or _rel(la, lc) > 1e-6:
+            out.append(("toy-reset-determinism", "run after reset gives %s, fresh run from the same seed gave %s" % (lc, la),
+                        {"kind": "toy", "scan": scan, "batch": b + 1, "seed": seed, "val_ratio": val_ratio, "val_mode": val_mode}))
+        # reset restores the initial state the model's `reset` assumes: rng re-seeded, histories empty
+        B.reset_recon()
+        st = B.rng.bit_generator.state
+        ref = np.random.default_rng(seed).bit_generator.state
+        fields_ok = (st == ref and len(B._iter_losses) == 0 and len(B._iter_val_losses) == 0 and len(B._iter_lrs) == 0)
+        ctx.count(("toy-reset-fields", scan), nontrivial=True)
+        ctx.cov["traces_validated_against_impl"] += 1
+        if not fields_ok:
+            out.append(("toy-reset-fields", "reset_recon does not restore rng state / empty histories",
+                        {"kind": "toy", "scan": scan, "seed": seed}))
     ctx.sample({"kind": "toy", "scan": list(scan), "divisors": divisors, "loss_fresh": la, "loss_after_reset": lc})
     return out
